@@ -1,5 +1,8 @@
 ---- MODULE MCStatsAgg ----
 EXTENDS StatsAgg
+RawNone == {"none"}
+RawAll == {"none", "listen", "halt_nexus", "halt_con", "raise_nexus", "raise_con", "remove_nexus", "remove_con"}
+M2_41 == <<4, 1>>
 OthersOne == {"echo"}
 OthersFew == {"echo", "pktin", "portstatus"}
 OthersAll == {"echo", "pktin", "portstatus", "barrier", "flowrem", "error", "config"}
